@@ -55,6 +55,14 @@ def run(c):
                 sample={"judge": "Decode returns (non-nil well-formed value, nil) or (nil, error); a panic escaping Decode, a hang, "
                                  "(nil, nil) or a value with a nil slot is a violation", "evaluations": stats.get("c15.judged", 0)},
                 hist={k: v for k, v in stats.items() if k.startswith(("outcome.", "c15."))})
+        c.count("reuse.judge", stats.get("reuse.cases", 0),
+                sample={"judge": "ONE Decoder called 2-4 times over a malformed input (a sample of the mutated encodings, each also followed "
+                                 "by the intact encoding; every 41st truncation; every 16th soup followed by a second soup; hosts h / n / "
+                                 "panicking H): EVERY call, after failures as after successes, returns a well-formed non-nil value or an "
+                                 "error — never (nil, nil), a panic or a hang; each call's answer is also compared with the model "
+                                 "(decodeCalls / failState, theorem C15_reuse_no_crash) in streams decn.*",
+                        "decoders": stats.get("reuse.cases", 0)},
+                hist={k: v for k, v in stats.items() if k.startswith("reuse.")})
         c.count("rec.judge", stats.get("rec.cases", 0),
                 sample={"judge": "fresh child process: Load + Run(//:default) on a project whose function-target record was corrupted "
                                  "(file bytes, stamp not base64, stamp = mutated/truncated/foreign/soup pickle): the child must exit without "
